@@ -351,8 +351,9 @@ def _vti_history(case, members, cfg, hist, d, sink, dim, nel, nnodes):
             if c is None or c in counters:
                 okfiles = False
             counters[c] = f
-        want = [''] if overwrite else list(range(s + 1))
-        okfiles = okfiles and sorted(counters, key=str) == sorted(want, key=str)
+        # the statement does not fix whether counting starts at 0 or 1: both are accepted, it must be consecutive
+        wants = [['']] if overwrite else [list(range(s + 1)), list(range(1, s + 2))]
+        okfiles = okfiles and any(sorted(counters, key=str) == sorted(w_, key=str) for w_ in wants)
         if not sink.chk(okfiles, 'vti_files', {'overwrite': overwrite}, nar, files=files, calls=s + 1,
                         expected='one file <stem>.vti' if overwrite else 'files <stem>.<k>.vti, k=0..calls-1'):
             return 'files', nontrivial, steps
@@ -609,7 +610,10 @@ def _log_history(case, fmt, sepfile, stale, hist, d, sink):
         for r, (row, vals) in enumerate(zip(log['rows'], logged)):
             if not sink.chk(len(row) == 1 + len(vals), 'log_columns', sigin, nar, row=row, expected_values=len(vals)):
                 continue
-            sink.chk(rv.is_number(row[0]) and float(row[0]) == r, 'log_iteration', {}, nar, row_index=r, got=row[0])
+            first = float(log['rows'][0][0]) if rv.is_number(log['rows'][0][0]) else None
+            base = first if first in (0.0, 1.0) else 0.0      # counting may start at 0 or at 1
+            sink.chk(rv.is_number(row[0]) and float(row[0]) == r + base, 'log_iteration', {}, nar, row_index=r,
+                     got=row[0])
             bad = [(c, col, v, format(float(v), fmt)) for c, (col, v) in enumerate(zip(row[1:], vals))
                    if not rv.column_ok(col, v, fmt)]
             sink.chk(not bad, 'log_values', sigin, nar, fmt=fmt, row_index=r,
